@@ -5,6 +5,7 @@ import XC.Model.C29
 import XC.Proofs.C29
 namespace XC.C29
 open XC
+set_option linter.unusedSimpArgs false
 
 /-! ## chooseDH over all 2^96 requests -/
 
@@ -43,7 +44,7 @@ theorem chooseDH_eq_chooseNat (min pref max : UInt32) :
       simp [h1, h2, a, b, ge_iff_le]
   unfold chooseDH chooseNat supportedSizes
   simp only [List.foldl]
-  rw [key _ 2048 (by decide), key _ 3072 (by decide), key _ 4096 (by decide)]
+  simp only [key _ 2048 (by decide), key _ 3072 (by decide), key _ 4096 (by decide)]
   simp
 
 /-- **chooseDH_spec**: for every request, the result is the smallest supported size within [min, max]
@@ -60,12 +61,21 @@ theorem chooseDH_spec (min pref max : UInt32) :
   generalize max.toNat = c
   unfold chooseNat
   simp only [List.foldl, List.filter]
-  by_cases h1 : a ≤ 2048 <;> by_cases h2 : 2048 ≤ c <;> by_cases h3 : a ≤ 3072 <;> by_cases h4 : 3072 ≤ c <;>
-    by_cases h5 : a ≤ 4096 <;> by_cases h6 : 4096 ≤ c <;>
-    by_cases h7 : b ≤ 2048 <;> by_cases h8 : b ≤ 3072 <;> by_cases h9 : b ≤ 4096 <;>
+  have ea1 : (a ≤ 2048) = ¬ (2048 < a) := by simp
+  have ea2 : (a ≤ 3072) = ¬ (3072 < a) := by simp
+  have ea3 : (a ≤ 4096) = ¬ (4096 < a) := by simp
+  have ec1 : (2048 ≤ c) = ¬ (c < 2048) := by simp
+  have ec2 : (3072 ≤ c) = ¬ (c < 3072) := by simp
+  have ec3 : (4096 ≤ c) = ¬ (c < 4096) := by simp
+  have eb1 : (b ≤ 2048) = ¬ (2048 < b) := by simp
+  have eb2 : (b ≤ 3072) = ¬ (3072 < b) := by simp
+  have eb3 : (b ≤ 4096) = ¬ (4096 < b) := by simp
+  by_cases h1 : 2048 < a <;> by_cases h2 : c < 2048 <;> by_cases h3 : 3072 < a <;> by_cases h4 : c < 3072 <;>
+    by_cases h5 : 4096 < a <;> by_cases h6 : c < 4096 <;>
+    by_cases h7 : 2048 < b <;> by_cases h8 : 3072 < b <;> by_cases h9 : 4096 < b <;>
     first
     | omega
-    | (simp [h1, h2, h3, h4, h5, h6, h7, h8, h9, List.filter, List.getLast?] <;> omega)
+    | simp [-Nat.not_lt, ea1, ea2, ea3, ec1, ec2, ec3, eb1, eb2, eb3, h1, h2, h3, h4, h5, h6, h7, h8, h9, List.filter, List.getLast?]
 
 /-- whatever is chosen lies within the requested bounds and is a supported group -/
 theorem chooseDH_in_bounds (min pref max : UInt32) (g : Nat) (h : chooseDH min pref max = some g) :
@@ -78,12 +88,21 @@ theorem chooseDH_in_bounds (min pref max : UInt32) (g : Nat) (h : chooseDH min p
   unfold chooseNat
   simp only [List.foldl]
   intro h
-  by_cases h1 : a ≤ 2048 <;> by_cases h2 : 2048 ≤ c <;> by_cases h3 : a ≤ 3072 <;> by_cases h4 : 3072 ≤ c <;>
-    by_cases h5 : a ≤ 4096 <;> by_cases h6 : 4096 ≤ c <;>
-    by_cases h7 : b ≤ 2048 <;> by_cases h8 : b ≤ 3072 <;> by_cases h9 : b ≤ 4096 <;>
+  have ea1 : (a ≤ 2048) = ¬ (2048 < a) := by simp
+  have ea2 : (a ≤ 3072) = ¬ (3072 < a) := by simp
+  have ea3 : (a ≤ 4096) = ¬ (4096 < a) := by simp
+  have ec1 : (2048 ≤ c) = ¬ (c < 2048) := by simp
+  have ec2 : (3072 ≤ c) = ¬ (c < 3072) := by simp
+  have ec3 : (4096 ≤ c) = ¬ (c < 4096) := by simp
+  have eb1 : (b ≤ 2048) = ¬ (2048 < b) := by simp
+  have eb2 : (b ≤ 3072) = ¬ (3072 < b) := by simp
+  have eb3 : (b ≤ 4096) = ¬ (4096 < b) := by simp
+  by_cases h1 : 2048 < a <;> by_cases h2 : c < 2048 <;> by_cases h3 : 3072 < a <;> by_cases h4 : c < 3072 <;>
+    by_cases h5 : 4096 < a <;> by_cases h6 : c < 4096 <;>
+    by_cases h7 : 2048 < b <;> by_cases h8 : 3072 < b <;> by_cases h9 : 4096 < b <;>
     first
     | omega
-    | (simp [h1, h2, h3, h4, h5, h6, h7, h8, h9] at h <;> first | omega | (subst h; simp; omega))
+    | (simp [-Nat.not_lt, ea1, ea2, ea3, ec1, ec2, ec3, eb1, eb2, eb3, h1, h2, h3, h4, h5, h6, h7, h8, h9] at h <;> first | omega | (subst h; simp [-Nat.not_lt, ea1, ea2, ea3, ec1, ec2, ec3, eb1, eb2, eb3, h1, h2, h3, h4, h5, h6, h7, h8, h9]))
 
 /-- the error is returned exactly when no supported size lies within [min, max] -/
 theorem chooseDH_none_iff (min pref max : UInt32) :
@@ -94,12 +113,21 @@ theorem chooseDH_none_iff (min pref max : UInt32) :
   generalize max.toNat = c
   unfold chooseNat
   simp only [List.foldl]
-  by_cases h1 : a ≤ 2048 <;> by_cases h2 : 2048 ≤ c <;> by_cases h3 : a ≤ 3072 <;> by_cases h4 : 3072 ≤ c <;>
-    by_cases h5 : a ≤ 4096 <;> by_cases h6 : 4096 ≤ c <;>
-    by_cases h7 : b ≤ 2048 <;> by_cases h8 : b ≤ 3072 <;> by_cases h9 : b ≤ 4096 <;>
+  have ea1 : (a ≤ 2048) = ¬ (2048 < a) := by simp
+  have ea2 : (a ≤ 3072) = ¬ (3072 < a) := by simp
+  have ea3 : (a ≤ 4096) = ¬ (4096 < a) := by simp
+  have ec1 : (2048 ≤ c) = ¬ (c < 2048) := by simp
+  have ec2 : (3072 ≤ c) = ¬ (c < 3072) := by simp
+  have ec3 : (4096 ≤ c) = ¬ (c < 4096) := by simp
+  have eb1 : (b ≤ 2048) = ¬ (2048 < b) := by simp
+  have eb2 : (b ≤ 3072) = ¬ (3072 < b) := by simp
+  have eb3 : (b ≤ 4096) = ¬ (4096 < b) := by simp
+  by_cases h1 : 2048 < a <;> by_cases h2 : c < 2048 <;> by_cases h3 : 3072 < a <;> by_cases h4 : c < 3072 <;>
+    by_cases h5 : 4096 < a <;> by_cases h6 : c < 4096 <;>
+    by_cases h7 : 2048 < b <;> by_cases h8 : 3072 < b <;> by_cases h9 : 4096 < b <;>
     first
     | omega
-    | (simp [h1, h2, h3, h4, h5, h6, h7, h8, h9] <;> omega)
+    | simp [-Nat.not_lt, ea1, ea2, ea3, ec1, ec2, ec3, eb1, eb2, eb3, h1, h2, h3, h4, h5, h6, h7, h8, h9]
 
 /-- non-vacuity / the OpenSSH examples: the client default (2048, 2048, 8192) gets group 14;
     a preferred size above everything gets the largest group; an empty window is an error -/
